@@ -136,6 +136,10 @@ func (c Commitments) GetCreatorAccount() sdk.AccAddress {
 }
 
 func (vesting *VestingTokens) VestedSoFar(ctx sdk.Context) math.Int {
+	if vesting.NumBlocks <= 0 {
+		// a schedule of zero blocks (accepted by VestingInfo.Validate) has fully elapsed
+		return vesting.TotalAmount
+	}
 	totalBlocks := ctx.BlockHeight() - vesting.StartBlock
 	if totalBlocks > vesting.NumBlocks {
 		totalBlocks = vesting.NumBlocks
